@@ -218,6 +218,28 @@ def m_char_pred(ex, callee, args):
     return char_pred(ex, name, deref_all(args[0]))
 
 
+@model(r'^(core::)?char::methods::<impl char>::to_digit$')
+def m_to_digit(ex, callee, args):
+    """char::to_digit(radix) for radix <= 10 and 16 on ASCII (None above ASCII: no other character is a digit)"""
+    c = deref_all(args[0])
+    radix = deref_all(args[1])
+    if not isinstance(radix.v, int) or radix.v not in (2, 8, 10, 16):
+        raise Unsupported('to_digit with radix %r' % (radix.v,))
+    r = radix.v
+    v = c.v if not isinstance(c.v, int) else z3.BitVecVal(c.v, 32)
+    dec = z3.And(z3.UGE(v, 0x30), z3.ULE(v, 0x30 + min(r, 10) - 1))
+    if ex.branch(dec):
+        return some(BV(z3.simplify(v - 0x30), 'u32'))
+    if r == 16:
+        low = z3.And(z3.UGE(v, 0x61), z3.ULE(v, 0x66))
+        if ex.branch(low):
+            return some(BV(z3.simplify(v - 0x61 + 10), 'u32'))
+        up = z3.And(z3.UGE(v, 0x41), z3.ULE(v, 0x46))
+        if ex.branch(up):
+            return some(BV(z3.simplify(v - 0x41 + 10), 'u32'))
+    return none()
+
+
 @model(r'^<F as Fn<\(char,\)>>::call$|^<.* as Fn(Mut|Once)?<\(.*\)>>::call(_mut|_once)?$')
 def m_fn_call(ex, callee, args):
     clo = args[0]
